@@ -133,6 +133,45 @@ def check_remove_output(ctx, rng):
         sc.close()
 
 
+def check_legacy_twin(ctx, rng):
+    """a repository migrated from the text-normalising md5: the state database (shared by the legacy and the new store) has
+    seen the workspace under 'md5-dos2unix'; the md5 cache holds the LF twin of a CRLF file but not the CRLF bytes; a checkout
+    without force must not take the one for the other"""
+    from dvc_data.hashfile.build import build
+
+    sc = Scene(ctx, rng, with_state=True)
+    try:
+        legacy = stores.make_odb(os.path.join(sc.root, "legacy"), local=sc.local, hash_name="md5-dos2unix", state=sc.state)
+        text = b"".join(b"line %d of the report\r\n" % i for i in range(rng.randrange(1, 6)))
+        prior = {("doc.txt",): text, ("bin.dat",): b"\x00\x01binary" + bytes([rng.randrange(256)])}
+        if rng.random() < 0.5:
+            prior[("sub", "notes.txt")] = b"other\r\ntext\r\n"
+        gen.materialize(sc.ws, prior)
+        # the legacy algorithm has hashed the workspace (status / dry build of a DVC 2 repository)
+        k0, _ = safe_call(lambda: build(legacy, sc.ws, sc.fs, "md5-dos2unix", dry_run=True))
+        # the md5 cache: LF twins of the text files (what the legacy value names), the binary file, and the target
+        for c in prior.values():
+            twin = c.replace(b"\r\n", b"\n")
+            stores.put_raw(sc.odb.path, md5hex(twin), twin)
+            sc.contents[md5hex(twin)] = twin
+        target = {k: (c + b"changed" if k != ("bin.dat",) else c) for k, c in prior.items()}
+        t2 = sc.put_tree(target)
+        before_bytes = sc.bytes_snapshot()
+        recoverable = {rel: (b is not None and sc.intact_in_cache(b)) for rel, b in before_bytes.items()}
+        link = rng.choice(["copy", "hardlink"])
+        res = sc.checkout(t2, [link], force=False, relink=rng.random() < 0.3)
+        after_bytes = sc.bytes_snapshot()
+        case = {"legacy_twin": {"files": sorted("/".join(k) for k in prior), "link": link, "local": sc.local, "legacy_build": k0}}
+        ctx.case(case, nontrivial=True)
+        ctx.count("legacy_twin outcome:" + ("ok" if "ok" in res else res["err"]))
+        for rel, b in before_bytes.items():
+            if after_bytes.get(rel) != b:
+                ctx.oracle(recoverable[rel], case, {"why": "checkout without force removed or overwrote a CRLF file whose bytes are not in the cache (only its LF twin is)",
+                                                     "path": rel, "outcome": res})
+    finally:
+        sc.close()
+
+
 def check_links(ctx, rng):
     """histories of record / modify / replace / remove / clean-up on links tracked by the state database"""
     from dvc_data.hashfile.state import State
@@ -206,7 +245,7 @@ def run(ctx):
         "workspace checked out from one directory object (copy/hardlink/symlink, both store classes, with/without state), then user "
         "edits (replace by uncached content, replace by cached content, delete, add an untracked file), optionally the old version "
         "leaving the cache, then a checkout of another object without force, relink on/off, prompt absent or declining, some target "
-        "objects missing, the workspace checked out with another link type than the configured one, objects of unchanged files gone from the cache; removal of an output (checkout of no object) with file objects gone from the cache while the directory object stays; link histories record/modify/replace/remove/clean-up with in-use lists and non-normalised root spellings. "
+        "objects missing, the workspace checked out with another link type than the configured one, objects of unchanged files gone from the cache; removal of an output (checkout of no object) with file objects gone from the cache while the directory object stays; workspaces hashed earlier under the text-normalising md5 through a shared state while the md5 cache holds only the LF twins of their CRLF files; link histories record/modify/replace/remove/clean-up with in-use lists and non-normalised root spellings. "
         "non-trivial = the workspace holds at least one file whose content is not in the cache"
     )
     ctx.assumptions = ["the hash-state cache is coherent (C13): a stale cached hash of a user file would make in_cache lie"]
@@ -216,6 +255,8 @@ def run(ctx):
         check_links(ctx, ctx.rng)
     for _ in range(ctx.n(40, 500)):
         check_remove_output(ctx, ctx.rng)
+    for _ in range(ctx.n(25, 250)):
+        check_legacy_twin(ctx, ctx.rng)
 
 
 def search(ctx):
@@ -225,6 +266,8 @@ def search(ctx):
         check_links(ctx, ctx.rng)
     for _ in range(500):
         check_remove_output(ctx, ctx.rng)
+    for _ in range(250):
+        check_legacy_twin(ctx, ctx.rng)
 
 
 def replay(ctx, payload):
